@@ -303,7 +303,7 @@ def gen_sliding_window(tier, rng):
                 yield case('sliding_window shape=%s window=%d axis=%d' % (fmt(s), w, ax), w, ax, ['window=int', axtag(ax)])
         # window tuple, axis None: one window size per axis
         wl = list(itertools.product(*[range(1, e + 1) for e in s]))
-        for w in (wl if tier == 'quick' and r <= 2 else sample(rng, wl, cap)):
+        for w in (wl if r <= 3 and max(s) <= scope(tier)[1] else sample(rng, wl, cap)):      # slidingWindowNone_*
             yield case('sliding_window shape=%s wlist=%s axis=None' % (fmt(s), fmt(w)), tuple(w), None, ['window=tuple', 'axis=None'])
         # window tuple, axis tuple (length 1..2, incl. negative and repeated axes)
         combos = []
@@ -311,7 +311,14 @@ def gen_sliding_window(tier, rng):
             for axs in itertools.product(all_axes(r), repeat=l):
                 for w in itertools.product(range(1, 4 if tier == 'quick' else 5), repeat=l):
                     combos.append((axs, w))
-        for axs, w in sample(rng, combos, cap * 4):
+        # rank <= 3 in the exhaustive extents scope: every axis list of length 1..2 (both spellings, repeats) x every
+        # window list, plus sampled lists of length 3 (slidingWindowList_*); otherwise sampled
+        if r <= 3 and max(s) <= scope(tier)[1]:
+            triples = [(axs, w) for axs in itertools.product(all_axes(r), repeat=3) for w in itertools.product(range(1, 3), repeat=3)]
+            chosen = combos + sample(rng, triples, cap)
+        else:
+            chosen = sample(rng, combos, cap * 4)
+        for axs, w in chosen:
             tags = ['window=tuple', 'axis=tuple', 'alist<0' if any(x < 0 for x in axs) else 'alist>=0']
             if len(set(x % r for x in axs)) < len(axs):
                 tags.append('alist-repeated')
